@@ -153,8 +153,7 @@ theorem i4b_step_plan1 (f : Sem) (j : Job) (cl : Cluster) (s s' : Sys) (wf : WF 
         intro ds; simp only [needed, pdone, pout]
       have hfl : ∀ w t, Sys.inFlight { s with ctl := c2, todo := rest } w t ↔ s.inFlight w t := by
         intro w t
-        simp only [Sys.inFlight, Sys.todoPairs, pong, htd, List.map_cons, List.mem_append, List.mem_singleton,
-          List.mem_cons]
+        simp only [Sys.inFlight, Sys.todoPairs, pong, htd, List.map_cons, List.mem_append, List.mem_cons]
         grind
       have hmono : ∀ h ds, s.ctl.hostDs h ds ≠ .missing → c2.hostDs h ds ≠ .missing := by
         intro h ds hne; rw [pH]; split
